@@ -72,3 +72,134 @@ class DnaSymClone(Contract):
   def trace_original_untouched(self, events, outcome, interp, env):
     s = interp.resolve(env['self'])
     return not [e for e in events if e.kind == 'write' and e.data[0] is s]
+
+
+# ---------------------------------------------------------------------------
+# "Every DNA handed out by the library (iteration, random generation, ...) has
+# each node bound to the decision point of its own position": the entry points
+# of DNASpec that hand out DNAs bind the DNA to the spec that was asked --
+# `dna.use_spec(self)`, which binds every node to the decision point of its
+# position (DNA.use_spec is under contract in C11) -- unless the caller
+# explicitly opts out with attach_spec=False; in particular BY DEFAULT.
+
+class _HandOut(Contract):
+  prop = 'C12'
+  variants = ('default', 'attach', 'opt-out')
+  inline = (f'{GB}:DNASpec.next_dna',)     # first_dna / iter_dna delegate to it
+  producer = None          # the abstract generation hook whose result is handed out
+  may_be_none = True
+
+  def setup_policy(self, policy):
+    me = self
+
+    def produce(interp, frame, args, kwargs):
+      interp.path.event('produce', me.producer, [interp.resolve(a) for a in args])
+      if me.may_be_none and interp.path.decide(2, 'space-exhausted') == 1:
+        me._made = None
+        return None
+      me._made = SObj(geno.DNA, {}, name='made')
+      return me._made
+    for q in (f'{GB}:DNASpec._next_dna', f'{GB}:DNASpec._random_dna'):
+      policy.contracts[q] = produce
+
+    def use_spec(interp, frame, args, kwargs):
+      interp.path.event('bind', 'DNA.use_spec', [interp.resolve(a) for a in args])
+      return args[0]
+    policy.contracts[f'{GB}:DNA.use_spec'] = use_spec
+
+  def spec(self):
+    self._spec = SObj(geno.DNASpec, {}, name='self')
+    return self._spec
+
+  def call_kwargs(self, b):
+    if self.variant == 'default':
+      self._attach = True
+      return {}
+    self._attach = self.variant == 'attach'
+    return dict(attach_spec=self._attach)
+
+  def drive(self, interp, pyf, args, env, check):
+    return interp.call_function(pyf, [self._spec] + list(self._pos), dict(self._kw))
+
+  def trace_handed_out_dna_is_bound_to_the_asked_spec(self, events, outcome, interp, env):
+    if outcome[0] != 'return':
+      return False
+    r = interp.resolve(outcome[1])
+    binds = [e for e in events if e.kind == 'bind']
+    made = [e for e in events if e.kind == 'produce']
+    if len(made) != 1 or r is not self._made:
+      return False
+    if r is None:
+      return not binds
+    if self._attach:
+      return len(binds) == 1 and binds[0].data[0] is r and binds[0].data[1] is self._spec
+    return not binds
+
+
+def _handout_replay(self, obligation, m):
+  bad = []
+  v = pg.Dict(x=pg.oneof([1, pg.oneof(['a', 'b'])]), y=pg.manyof(2, [1, 2, 3]))
+  spec_ = pg.dna_spec(v)
+  import random as _random
+  first = spec_.first_dna()
+  outs = [('first_dna()', first), ('next_dna()', spec_.next_dna()), ('next_dna(first)', spec_.next_dna(first)),
+          ('random_dna()', spec_.random_dna()), ('random_dna(Random(1))', spec_.random_dna(_random.Random(1))),
+          ('random_dna(previous_dna=first)', spec_.random_dna(previous_dna=first)),
+          ('next(iter_dna())', next(iter(spec_.iter_dna()))), ('next(iter_dna(first))', next(iter(spec_.iter_dna(first))))]
+  for name, d in outs:
+    if d.spec is not spec_:
+      bad.append(f'{name}: the DNA handed out is bound to {d.spec!r:.40}, not to the spec that was asked')
+      continue
+    try:
+      d.to_dict()
+    except Exception as e:  # pylint: disable=broad-except
+      bad.append(f'{name}: to_dict() raises {type(e).__name__}')
+  return dict(outcome='reproduced' if bad else 'not-reproduced', detail='; '.join(bad) or 'every DNA handed out is bound')
+
+
+_HandOut.replay = _handout_replay
+_HandOut.small_models = lambda self: iter([__import__('pyvc.contracts', fromlist=['Model']).Model({}, {})])
+
+
+@register
+class FirstDnaHandsOutBoundDna(_HandOut):
+  target = f'{GB}:DNASpec.first_dna'
+  producer = '_next_dna'
+
+  def inputs(self, b):
+    self._pos, self._kw = [], self.call_kwargs(b)
+    return dict(self=self.spec()), {}
+
+  def trace_starts_from_the_beginning(self, events, outcome, interp, env):
+    made = [e for e in events if e.kind == 'produce']
+    return len(made) == 1 and made[0].data[-1] is None
+
+
+@register
+class NextDnaHandsOutBoundDna(_HandOut):
+  target = f'{GB}:DNASpec.next_dna'
+  producer = '_next_dna'
+
+  def inputs(self, b):
+    self._prev = b.choice('previous_kind', [None, SObj(geno.DNA, {}, name='previous')])
+    self._pos, self._kw = [self._prev], self.call_kwargs(b)
+    return dict(self=self.spec()), {}
+
+  def trace_successor_of_the_given_dna(self, events, outcome, interp, env):
+    made = [e for e in events if e.kind == 'produce']
+    return len(made) == 1 and made[0].data[-1] is interp.resolve(self._prev)
+
+
+@register
+class RandomDnaHandsOutBoundDna(_HandOut):
+  target = f'{GB}:DNASpec.random_dna'
+  producer = '_random_dna'
+  may_be_none = False
+
+  def inputs(self, b):
+    self._rng = b.choice('rng_kind', [None, SAny('rng')])
+    self._pos, self._kw = [self._rng], self.call_kwargs(b)
+    prev = b.choice('previous_kind', ['omitted', None, SObj(geno.DNA, {}, name='previous')])
+    if prev != 'omitted':
+      self._kw['previous_dna'] = prev
+    return dict(self=self.spec()), {}
